@@ -923,7 +923,11 @@ check_pairwise(const Cfg& k)
               qa += std::fabs(t);
             }
         stats().maxi("max negative v'Hv / sum|terms| " + kn, qa > 0 ? std::max(0., -q / qa) : 0.);
-        VF_CHECK(q >= -TOL * qa, kn, " declares itself convex but v'Hv = ", q, " < 0 (sum of |terms| ", qa, ")");
+        // absolute slack: entries below FLT_MIN are denormal floats with an absolute rounding error of 1.4e-45 each
+        double dn = 0;
+        for (int i = 0; i < N; ++i)
+          dn += std::fabs((*d)[std::size_t(i)]);
+        VF_CHECK(q >= -TOL * qa - double(FLT_MIN) * dn * dn, kn, " declares itself convex but v'Hv = ", q, " < 0 (sum of |terms| ", qa, ")");
       }
     // and through accumulate_Hessian_times_input
     double q = 0, qa = 0;
@@ -932,7 +936,7 @@ check_pairwise(const Cfg& k)
         q += v[std::size_t(i)] * hvstir[std::size_t(i)];
         qa += std::fabs(v[std::size_t(i)]) * hvmag[std::size_t(i)];
       }
-    VF_CHECK(q >= -TOL * qa, kn, " declares itself convex but v'(Hv) = ", q, " < 0 via accumulate_Hessian_times_input (magnitude ", qa, ")");
+    VF_CHECK(q >= -TOL * qa - double(FLT_MIN) * N * N, kn, " declares itself convex but v'(Hv) = ", q, " < 0 via accumulate_Hessian_times_input (magnitude ", qa, ")");
   }
 
   // ---- parabolic surrogate curvature ------------------------------------------------------------------------------------------
